@@ -532,3 +532,112 @@ Proof.
   exact (conj rankedx (conj stampsx (conj no_neverx (conj s2_reachable (conj spec4
         (conj run2_values (conj run2_values_shortcut (conj run2_all_done (conj run1_deps_3 run1_deps_1))))))))).
 Qed.
+
+(* ------------------------------------------------------------------------------------------
+   WITH THE SHORT-CUT ([sc = true]) — `_partial` (stage 11; proofs in CFetchD/ProofsShort.v):
+   the value theorem for programs in which every durability level an input ever has is written in
+   every revision ([live_levels]: forall r i r', d_lc Q r' (d_idur Q r i) = r' — e.g. all inputs
+   LOW, whose last-changed revision is the current one; the witness program is of this kind).
+   There the short-cut fires exactly for memos of NEVER-CHANGING durability (memos whose whole call
+   closure reads no input): on the hot path WITHOUT a claim — probe and store are two shared steps,
+   other handles interleave between them — and at the re-check after the claim.  Any number of
+   handles, dynamic call lists, repeated callees, input-free bodies, per-revision durabilities.
+   GAP (C16_values_computed_shortcut_full_statement stays a Definition): levels that are stable
+   over a window without being never-changing (MEDIUM / HIGH inputs not written for some
+   revisions).  There a memo becomes verified in a revision in which its callees were not visited;
+   the ghost set `seen` of ProofsVal must then be closed over the memo's call closure, and the
+   invariant needs the semantic durability of Core/DInv.v (`durge`, the stable-window disjunct of
+   `obs_pre`, `m_dur mg <= m_dur md` for observers).  Moreover the statement with [durab_ok] alone is
+   FALSE of the model (C16_values_computed_shortcut_full_statement_refuted below): [d_idur] may
+   change without a new stamp, a callee re-verified by its unchanged input stamps then keeps a
+   stale (too high) durability and the caller's short-cut returns a stale value one write later;
+   a hypothesis tying durability changes to stamps
+   (forall r i r', d_stamp Q r i <= r' <= r -> d_idur Q r' i = d_idur Q r i) is needed. *)
+From Salsa.CFetchD Require ProofsShort ExamplesShort.
+
+Theorem C16_values_computed_shortcut_partial :
+  forall fuel Q rank s t k r v,
+  Salsa.CFetchD.ProofsRel.rankedD Q rank -> Salsa.CFetchD.ProofsRel.stampsD_ok Q -> no_never Q ->
+  (forall r0 i r', d_lc Q r' (d_idur Q r0 i) = r') ->
+  creachD fuel Q true s ->
+  In (ERet t k r v) (cD_log s) -> v = ED Q rank r k.
+Proof. exact Salsa.CFetchD.ProofsShort.values_computed_shortcut. Qed.
+
+Check C16_values_computed_shortcut_partial :
+  forall fuel Q rank s t k r v,
+  Salsa.CFetchD.ProofsRel.rankedD Q rank -> Salsa.CFetchD.ProofsRel.stampsD_ok Q -> no_never Q ->
+  (forall r0 i r', d_lc Q r' (d_idur Q r0 i) = r') ->
+  creachD fuel Q true s ->
+  In (ERet t k r v) (cD_log s) -> v = ED Q rank r k.
+Print Assumptions C16_values_computed_shortcut_partial.
+
+Theorem C16_memo_writes_sound_shortcut_partial :
+  forall fuel Q rank s k m,
+  Salsa.CFetchD.ProofsRel.rankedD Q rank -> Salsa.CFetchD.ProofsRel.stampsD_ok Q -> no_never Q ->
+  (forall r0 i r', d_lc Q r' (d_idur Q r0 i) = r') ->
+  creachD fuel Q true s ->
+  cD_memo s k = Some m -> o_val m = ED Q rank (o_ver m) k.
+Proof. exact Salsa.CFetchD.ProofsShort.memo_sound_shortcut. Qed.
+
+Check C16_memo_writes_sound_shortcut_partial :
+  forall fuel Q rank s k m,
+  Salsa.CFetchD.ProofsRel.rankedD Q rank -> Salsa.CFetchD.ProofsRel.stampsD_ok Q -> no_never Q ->
+  (forall r0 i r', d_lc Q r' (d_idur Q r0 i) = r') ->
+  creachD fuel Q true s ->
+  cD_memo s k = Some m -> o_val m = ED Q rank (o_ver m) k.
+Print Assumptions C16_memo_writes_sound_shortcut_partial.
+
+(* in these programs a memo that passes the probe without being verified now is never-changing *)
+Theorem C16_shortcut_fires_only_on_never_partial :
+  forall fuel Q rank s k m,
+  Salsa.CFetchD.ProofsRel.rankedD Q rank -> Salsa.CFetchD.ProofsRel.stampsD_ok Q -> no_never Q ->
+  (forall r0 i r', d_lc Q r' (d_idur Q r0 i) = r') ->
+  creachD fuel Q true s ->
+  cD_memo s k = Some m -> o_ver m <> cD_cur s -> shortcut Q true (cD_cur s) m = true -> o_dur m = DUR_MAX.
+Proof. exact Salsa.CFetchD.ProofsShort.shortcut_only_never. Qed.
+
+Check C16_shortcut_fires_only_on_never_partial :
+  forall fuel Q rank s k m,
+  Salsa.CFetchD.ProofsRel.rankedD Q rank -> Salsa.CFetchD.ProofsRel.stampsD_ok Q -> no_never Q ->
+  (forall r0 i r', d_lc Q r' (d_idur Q r0 i) = r') ->
+  creachD fuel Q true s ->
+  cD_memo s k = Some m -> o_ver m <> cD_cur s -> shortcut Q true (cD_cur s) m = true -> o_dur m = DUR_MAX.
+Print Assumptions C16_shortcut_fires_only_on_never_partial.
+
+(* non-vacuity: the C16_dyn_witness program satisfies the extra hypothesis; its two-handle,
+   three-revision run with the short-cut ON is reachable, returns the from-scratch values by the
+   theorem (and by computation: the same as without the short-cut), and key 1 — never-changing —
+   is executed once in three revisions although it is returned in each *)
+Example C16_dyn_witness_shortcut :
+  (forall r0 i r', d_lc Qx r' (d_idur Qx r0 i) = r') /\
+  creachD 8 Qx true s2c /\
+  (forall t k r v, In (ERet t k r v) (cD_log s2c) -> v = ED Qx rankx r k) /\
+  top_rets s2c = [(1, 9); (1, 9); (2, 13); (3, 18); (3, 18)] /\
+  count_exec 1 1 (cD_log s2c) = 1%nat /\ count_exec 1 2 (cD_log s2c) = 0%nat /\ count_exec 1 3 (cD_log s2c) = 0%nat.
+Proof.
+  destruct Salsa.CFetchD.ExamplesShort.s2c_run as (A & B & C & D).
+  exact (conj Salsa.CFetchD.ExamplesShort.live_levelsx (conj s2c_reachable
+        (conj Salsa.CFetchD.ExamplesShort.s2c_values_from_theorem (conj A (conj B (conj C D)))))).
+Qed.
+
+
+(* FINDING: the full statement as written (hypotheses [durab_ok] etc.) is false of the model.
+   Witness (CFetchD/ExamplesShort.v, Qc): k = d, d = input 1; revision 2 lowers the input's
+   durability from 2 to 0 without a new stamp, revision 3 writes it; the run with the short-cut
+   returns 5 for k in revision 3, the from-scratch value is 9. *)
+Theorem C16_values_computed_shortcut_full_statement_refuted :
+  ~ C16_values_computed_shortcut_full_statement.
+Proof.
+  intros H.
+  destruct Salsa.CFetchD.ExamplesShort.sc3_stale as (Hin & HE & _).
+  pose proof (H 8%nat Salsa.CFetchD.ExamplesShort.Qc Salsa.CFetchD.ExamplesShort.rankc
+                Salsa.CFetchD.ExamplesShort.sc3 1 2 3 5
+                Salsa.CFetchD.ExamplesShort.rankedc Salsa.CFetchD.ExamplesShort.stampsc
+                Salsa.CFetchD.ExamplesShort.no_neverc Salsa.CFetchD.ExamplesShort.durabc
+                Salsa.CFetchD.ExamplesShort.sc3_reachable Hin) as E.
+  rewrite HE in E. discriminate.
+Qed.
+
+Check C16_values_computed_shortcut_full_statement_refuted :
+  ~ C16_values_computed_shortcut_full_statement.
+Print Assumptions C16_values_computed_shortcut_full_statement_refuted.
